@@ -34,6 +34,10 @@ func embedDoc(d corpus.Doc) (mt string, data []byte, ok bool) {
 		if bytes.Contains(low, []byte("</style")) {
 			return
 		}
+		if len(d.Data)%2 == 1 && !bytes.ContainsAny(d.Data, "<&]") {
+			// two levels: HTML > inline SVG > CSS
+			return "text/html", []byte("<p>a</p><svg width=\"1\"><style>" + string(d.Data) + "</style><path d=\"M0 0\"/></svg><p>b</p>"), true
+		}
 		return "text/html", []byte("<p>a</p><style>" + string(d.Data) + "</style><p>b</p>"), true
 	case "application/javascript":
 		if bytes.Contains(low, []byte("</script")) || bytes.Contains(low, []byte("<!--")) {
